@@ -2,8 +2,10 @@
 //! (C06 / C19 / C05).  Replays every scenario TLC printed on the real `TandemSorter`, `LimitedQueue`
 //! and `sort::osu_legacy` (re-exported by the `rosu_pp::verif` hook module).
 
+#![cfg_attr(verif_degraded, allow(dead_code, unused_imports))]
 use crate::util::*;
 use rosu_pp::model::hit_object::HitObject;
+#[cfg(not(verif_degraded))]
 use rosu_pp::verif::{sort_osu_legacy, LimitedQueue, TandemSorter};
 use rosu_pp::Beatmap;
 use serde_json::{json, Value};
@@ -18,6 +20,7 @@ fn ints(v: &Value) -> Vec<i64> {
     v.as_array().map(|a| a.iter().map(|x| x.as_i64().unwrap_or(0)).collect()).unwrap_or_default()
 }
 
+#[cfg(not(verif_degraded))]
 fn queue_case<const N: usize>(hist: &[i64]) -> (Vec<i64>, usize, Vec<i64>) {
     let mut q = LimitedQueue::<i64, N>::new();
     for h in hist {
@@ -30,7 +33,15 @@ fn queue_case<const N: usize>(hist: &[i64]) -> (Vec<i64>, usize, Vec<i64>) {
     (all, q.len(), idx)
 }
 
+#[cfg(verif_degraded)]
+pub fn main(args: &[String]) -> i32 {
+    std::fs::write(&args[1], r#"{"scenarios": 0, "degraded": true, "by_kind": {}, "mismatches": 0, "benign": 0, "by_class": {}, "records": []}"#).unwrap();
+    println!("utils-replay: DEGRADED build, internal helper API changed - nothing replayed");
+    0
+}
+
 /// `utils-replay <scenarios.ndjson> <out.json>`
+#[cfg(not(verif_degraded))]
 pub fn main(args: &[String]) -> i32 {
     silence_panics();
     let scenarios = read_ndjson(&args[0]);
